@@ -679,7 +679,8 @@ int disasm_68000(
           snprintf(instruction, length, "%s.%c %s, d%d", table_68000[n].instr, sizes[size], ea, reg);
           return len;
         default:
-          return -1;
+          strcpy(instruction, "???");
+          return 2;
       }
     }
 
@@ -732,8 +733,10 @@ int disasm_68000(
     return len;
   }
 
+  // A word that matches nothing is one (unknown) 16 bit word: the range
+  // walk moves on instead of backwards.
   strcpy(instruction, "???");
-  return -1;
+  return 2;
 }
 
 void list_output_68000(
